@@ -6,6 +6,27 @@ from baize.typing import Environ, StartResponse, WSGIApp
 from .responses import PlainTextResponse, Response
 
 
+def decode_path(path: str) -> str:
+    """
+    PATH_INFO holds the bytes of the request path decoded as Latin-1 (PEP 3333);
+    the path itself is UTF-8. Text that is not UTF-8 is left as it is.
+    """
+    try:
+        return path.encode("latin-1").decode("utf-8")
+    except UnicodeError:
+        return path
+
+
+def encode_path(path: str) -> str:
+    """
+    The inverse of `decode_path`: text to the native string WSGI expects.
+    """
+    try:
+        return path.encode("utf-8").decode("latin-1")
+    except UnicodeError:  # pragma: no cover
+        return path
+
+
 class Router(BaseRouter[WSGIApp]):
     """
     A router to assign different paths to different WSGI applications.
@@ -23,7 +44,7 @@ class Router(BaseRouter[WSGIApp]):
     def __call__(
         self, environ: Environ, start_response: StartResponse
     ) -> Iterable[bytes]:
-        result = self.search(environ.get("PATH_INFO", ""))
+        result = self.search(decode_path(environ.get("PATH_INFO", "")))
         if result is None:
             response: WSGIApp = Response(404)
         else:
@@ -51,14 +72,20 @@ class Subpaths(BaseSubpaths[WSGIApp]):
     def __call__(
         self, environ: Environ, start_response: StartResponse
     ) -> Iterable[bytes]:
-        path = environ.get("PATH_INFO", "")
+        raw_path = environ.get("PATH_INFO", "")
+        path = decode_path(raw_path)
         result = self.search(path)
         if result is None:
             response: WSGIApp = Response(404)
         else:
             prefix, response = result
-            environ["SCRIPT_NAME"] = environ.get("SCRIPT_NAME", "") + prefix
-            environ["PATH_INFO"] = path[len(prefix) :]
+            if path is raw_path or path == raw_path:  # ASCII, or not UTF-8 at all
+                native_prefix, native_rest = prefix, raw_path[len(prefix) :]
+            else:
+                native_prefix = encode_path(prefix)
+                native_rest = encode_path(path[len(prefix) :])
+            environ["SCRIPT_NAME"] = environ.get("SCRIPT_NAME", "") + native_prefix
+            environ["PATH_INFO"] = native_rest
         yield from response(environ, start_response)
 
 
